@@ -40,8 +40,12 @@ TEXTS = [
     "try:\n x\nexcept E as e:\n y\nelif\nfinally:\n z\n",
     "",
     "class A:\n def f(self):\n  (\n  b\n  c\n\n def g(self):\n  d\n ",
+    "x = '''a\x0cb\x1c\nc\x85'''\ny = 1\n# h\n\n    import os\n",
+    "def f():\n        x\n    y\n  z\n",
+    "f(a)[b:c], {d: e for d in g if h}",          # parsed as an expression (eval_input root)
 ]
-TREES = [parso.parse(t, version='3.10') for t in TEXTS]
+TREES = [parso.parse(t, version='3.10') for t in TEXTS[:-1]] + \
+    [parso.load_grammar(version='3.10').parse(TEXTS[-1], error_recovery=False, start_symbol='eval_input')]
 LEAVES = [leaves(t) for t in TREES]
 NODES = [nodes(t) for t in TREES]
 
